@@ -275,6 +275,9 @@ func (lr *lbRun) finish(res *lbResult, level string, extra map[string]interface{
 			}
 			if k := matchKnown(known, prop, f.Conv, f.Kind, f.Note); k != nil {
 				knownHits[k.What]++
+				if os.Getenv("VERIF_LIST_KNOWN") != "" {
+					fmt.Printf("KNOWN-HIT conv=%s kind=%s\n", f.Conv, f.Kind)
+				}
 				continue
 			}
 			key := f.Kind + "|" + f.Path + "|" + f.Note
